@@ -108,16 +108,89 @@ Theorem C20_numeral_dec_octet : forall ds, IntegerSpec.unsigned_numeral ds -> (I
 Proof. exact UriProof.numeral_dec_octet. Qed.
 Print Assumptions C20_numeral_dec_octet.
 
-(* ---- NOT closed (shipped as a comment, no theorem):
+(* ================================================================================================================
+   COMPLETENESS of the three URI forms (hence exactness): closed.
 
-   C20_complete_partial (URI, URI_reference, absolute_URI), the statement that is expected to be TRUE:
-       forall t s, t is one of TURI / TURI_reference / Tabsolute_URI -> bytes_ok s -> matches (rfc t) s ->
-         uri_accepts t s.
-     (Before /repo b222ba6 this was refuted by host = reg-name with an IPv4address as proper prefix.)  Missing: the certificate of
-     UriComplete.v covers neither star / plus (needs a termination argument: fuel >= input length) nor must / if_must
-     (needs "an alternative that is not the right one fails WITHOUT raising", i.e. a commit-point analysis), and the
-     host rule needs the hypothesis above threaded through the quotient condition of its sor.  What IS closed towards
-     it: exactness of IPv4address and IPv6address (the two non-trivial leaves of host), the five soundness theorems.
-     The check classifies every oracle disagreement against exactly the excluded class (host = reg-name with
-     IPv4address proper prefix AND the same input with a non-IPv4 host is accepted); anything outside it is reported
-     as a new violation. *)
+   UriCert2.v extends the certificate of UriComplete.v to the whole fragment uri.hpp uses:
+     cc2 n r K = true -> on every input of R.K (R = regular reading of node r) the engine SUCCEEDS on r, rest in K
+     nr  n r L = true -> on every input of L the engine returns true or false on r (no parse_error, enough fuel)
+   with   star / plus    body not nullable (every iteration consumes; loop fuel > length of the rest), body complete and
+                         non-raising w.r.t. R*.K, and R \ (R*.K) inside R*.K up to what cannot follow the body
+          must, if_must, opt_must   the rule after the commit point is certified complete for what can follow it, and on
+                         every "wrong path" (an alternative / option / iteration that is not the right one) the input
+                         language is followed through the rule with verified left quotients (lq): there the condition
+                         of an if_must fails or its continuation is again certified to succeed
+          not_at         operand complete w.r.t. Any (follow information), non-raising on K, no word of K starts with
+                         a word of the operand
+   Soundness of the certificate is proved for every table (cert2_sound); the three roots are discharged by vm_compute on
+   gen/Uri_gen.v (UriCompleteURI.v / UriCompleteAbs.v / UriCompleteRef.v), so an edit of uri.hpp that breaks completeness
+   breaks these proofs. ---- *)
+From PegtlV Require Import UriCert2 UriComplete2H UriCompleteF UriComplete2 UriCompleteURI UriCompleteAbs UriCompleteRef.
+
+(* the two additional regular-language checkers are sound *)
+Theorem C20_quot_checker2_sound : forall fuel R L K, quot2 fuel R L K = true ->
+  forall w r, bytes_lt256 w -> bytes_lt256 r -> matches R w -> matches L (w ++ r) -> matches K r.
+Proof. exact UriComplete2H.quot2_sound. Qed.
+Print Assumptions C20_quot_checker2_sound.
+
+Theorem C20_left_quotient_sound : forall fuel R L Q, lq fuel R L = Some Q ->
+  forall w t, bytes_lt256 w -> matches R w -> matches L (w ++ t) -> matches Q t.
+Proof. exact UriComplete2H.lq_sound. Qed.
+Print Assumptions C20_left_quotient_sound.
+
+(* the certificate of UriComplete.v with the faster quotient check (used for IPv4address / IPv6address inside host) *)
+Theorem C20_complete_certificateF_sound :
+  forall G MX, AtomFacts.table_wf G -> forall n r K R nf, ccf G MX n r K = true -> re_of G MX n r = Some (R, nf) ->
+  Tot G MX n r /\ CmpR G MX n r R K /\ FolOK G MX n r.
+Proof. exact UriCompleteF.ccf_sound. Qed.
+Print Assumptions C20_complete_certificateF_sound.
+
+(* the extended certificate is sound, for every table, every input bound B, at fuel n + B + 1 *)
+Theorem C20_complete_certificate2_sound :
+  forall G MX, AtomFacts.table_wf G -> forall B n,
+  (forall r K R nf, cc2 G MX n r K = true -> re_of G MX n r = Some (R, nf) -> Cmp2 G MX B n r R K /\ Fol2 G MX B n r K) /\
+  (forall r L R nf, nr G MX n r L = true -> re_of G MX n r = Some (R, nf) -> Nr2 G MX B n r L).
+Proof. exact UriComplete2.cert2_sound. Qed.
+Print Assumptions C20_complete_certificate2_sound.
+
+(* a root certified for the continuation Eps accepts every string of its regular reading *)
+Theorem C20_certified_root_accepts :
+  forall G MX, AtomFacts.table_wf G -> forall n r R nf s, cc2 G MX n r Regex.Eps = true -> re_of G MX n r = Some (R, nf) ->
+  bytes_ok s -> matches R s -> exists f c' evs, evalx G C0 MX f d0 r (mkcur s pos0) = Res Ok c' evs.
+Proof. exact UriComplete2.cc2_accepts. Qed.
+Print Assumptions C20_certified_root_accepts.
+
+Theorem C20_complete_URI : forall s, bytes_ok s -> matches (rfc TURI) s -> uri_accepts TURI s.
+Proof. exact UriCompleteURI.complete_URI. Qed.
+Print Assumptions C20_complete_URI.
+
+Theorem C20_exact_URI : forall s, bytes_ok s -> (uri_accepts TURI s <-> matches (rfc TURI) s).
+Proof. exact UriCompleteURI.exact_URI. Qed.
+Print Assumptions C20_exact_URI.
+
+Theorem C20_complete_absolute_URI : forall s, bytes_ok s -> matches (rfc Tabsolute_URI) s -> uri_accepts Tabsolute_URI s.
+Proof. exact UriCompleteAbs.complete_absolute_URI. Qed.
+Print Assumptions C20_complete_absolute_URI.
+
+Theorem C20_exact_absolute_URI : forall s, bytes_ok s -> (uri_accepts Tabsolute_URI s <-> matches (rfc Tabsolute_URI) s).
+Proof. exact UriCompleteAbs.exact_absolute_URI. Qed.
+Print Assumptions C20_exact_absolute_URI.
+
+Theorem C20_complete_URI_reference : forall s, bytes_ok s -> matches (rfc TURI_reference) s -> uri_accepts TURI_reference s.
+Proof. exact UriCompleteRef.complete_URI_reference. Qed.
+Print Assumptions C20_complete_URI_reference.
+
+Theorem C20_exact_URI_reference : forall s, bytes_ok s -> (uri_accepts TURI_reference s <-> matches (rfc TURI_reference) s).
+Proof. exact UriCompleteRef.exact_URI_reference. Qed.
+Print Assumptions C20_exact_URI_reference.
+
+(* ---- Status of C20: nothing is left open.  For X in URI / URI_reference / absolute_URI / IPv4address / IPv6address:
+        C20_sound_X, C20_complete_X, C20_exact_X  (uri_accepts X s <-> matches (rfc X) s, for every byte string s),
+     all about gen/Uri_gen.v, the table regenerated from /repo on every run.
+     History: before /repo b222ba6 completeness of the three URI forms was refuted by host = reg-name with an IPv4address
+     as proper prefix ("//1.2.3.4a"); the repaired host rule
+        host = sor< IP_literal, seq< IPv4address, not_at< sor< unreserved, pct_encoded, sub_delims > > >, reg_name >
+     is what the not_at case of the certificate is about (C20_host_prefix_accepted keeps the two former witnesses).
+     The certificate computation found no other ordered choice / option / repetition of uri.hpp that commits too early and
+     no must / if_must / opt_must that can raise on a string of the RFC language.  The check still classifies any oracle
+     disagreement outside the recorded (fixed) class as a new violation. *)
